@@ -119,6 +119,11 @@ def dedupe_case(draw):
     rows, _ = draw(_pool_rows(flds, 14, pool_size=2))
     other = draw(st.one_of(st.none(), gen.resource('res2', max_rows=4)))
     res = [{'name': 'res1', 'fields': flds, 'rows': rows, 'pk': pk}]
+    if draw(st.booleans()):
+        # a second resource with the same schema, key and value pools: deduplicated in the same step (resources=None)
+        rows2 = [dict(r) for r in draw(st.permutations(rows))][:draw(st.integers(0, len(rows)))] if rows else []
+        res.append({'name': 'res2', 'fields': copy.deepcopy(flds), 'rows': rows2, 'pk': list(pk)})
+        return {'op': 'dedupe_all', 'pkg': res, 'args': {}}
     if other:
         res.insert(draw(st.integers(0, 1)), other)
     return {'op': draw(st.sampled_from(['dedupe', 'dedupe2'])), 'pkg': res, 'args': {}}
@@ -246,9 +251,11 @@ def check(case, ctx):
         exp_rows = [r for r in src['rows'] if cond(r)]
         exp_fields = [(f['name'], f['type']) for f in src['fields']]
         nontrivial = 0 < len(exp_rows) < len(src['rows'])
-    elif op in ('dedupe', 'dedupe2'):
+    elif op in ('dedupe', 'dedupe2', 'dedupe_all'):
         pk = src['pk']
         steps = [dataflows.deduplicate(resources='res1')] * 1
+        if op == 'dedupe_all':
+            steps = [dataflows.deduplicate()]
         if op == 'dedupe2':
             steps = [dataflows.deduplicate(resources='res1'), dataflows.deduplicate(resources='res1')]
         if pk:
@@ -300,6 +307,19 @@ def check(case, ctx):
     got_fields = schema_sig(out_desc, 'res1')
     if got_fields != exp_fields:
         raise Violation('%s:schema' % op, {'got': got_fields, 'expected': exp_fields})
+    if op == 'dedupe_all':
+        # every resource is de-duplicated on its own (keys seen in one resource do not count in another)
+        for i, r in enumerate(pkg):
+            seen, exp = [], []
+            for row in r['rows']:
+                key = tuple(row[k] for k in r['pk'])
+                if r['pk'] and key in seen:
+                    continue
+                seen.append(key)
+                exp.append(row)
+            if out_rows[i] != exp:
+                raise Violation('dedupe_all:rows', {'resource': r['name'], 'n_got': len(out_rows[i]), 'n_expected': len(exp)})
+        return Info(nontrivial=nontrivial, classes=classes + ['dedupe:several-resources'])
     # bystander resource untouched
     for i, r in enumerate(pkg):
         if i != ti:
